@@ -669,11 +669,25 @@ package gts
 //@   loop 1: decreases len(ff) - i
 
 // Metadata hooks (GenBankFields etc.): assumed pure.
+//@ spec func shiftHook(info any, i int, n int) any uninterpreted
+//@ spec func expandHook(info any, i int, n int) any uninterpreted
 //@ func (v Shiftable) Shift(i, n int) (out any)
-//@   trusted interface contract: metadata hooks do not write to existing memory
+//@   trusted interface contract: metadata hooks do not write to existing memory and are deterministic functions of the receiver and the edit
+//@   ensures out == shiftHook(v, i, n)
 //@   assigns nothing
 //@ func (v Expandable) Expand(i, n int) (out any)
-//@   trusted interface contract: metadata hooks do not write to existing memory
+//@   trusted interface contract: metadata hooks do not write to existing memory and are deterministic functions of the receiver and the edit
+//@   ensures out == expandHook(v, i, n)
+//@   assigns nothing
+//@ spec func shiftedInfo(info any, i int, n int) any = ite(is(info, Shiftable), shiftHook(info, i, n), info)
+//@ spec func expandedInfo(info any, i int, n int) any = ite(is(info, Expandable), expandHook(info, i, n), info)
+//@ func tryShift(info any, i, n int) (out any)
+//@   prop C02
+//@   ensures out == shiftedInfo(info, i, n)
+//@   assigns nothing
+//@ func tryExpand(info any, i, n int) (out any)
+//@   prop C02 C03
+//@   ensures out == expandedInfo(info, i, n)
 //@   assigns nothing
 //@ spec func sliceHook(info any, start int, end int) any uninterpreted
 //@ func (v Sliceable) Slice(start, end int) (out any)
@@ -711,6 +725,7 @@ package gts
 //@   ensures wiring_injective: (forall a in 0..len(featsOf(host)): forall b in a+1..len(featsOf(host)): QH(a) != QH(b)) &&
 //@      (forall a in 0..len(featsOf(guest)): forall b in a+1..len(featsOf(guest)): QG(a) != QG(b)) &&
 //@      (forall a in 0..len(featsOf(host)): forall b in 0..len(featsOf(guest)): QH(a) != QG(b))
+//@   ensures info: infoOf(out) == shiftedInfo(old(infoOf(host)), index, len(bytesOf(guest)))
 //@   assigns nothing
 //@   loop 1: ghost_update QH(k) := ite(k == idx1 - 1, Insert_P(0), ite(QH(k) >= Insert_P(0), QH(k) + 1, QH(k)))
 //@   loop 1: invariant forall k in 0..idx1: 0 <= QH(k) && QH(k) < len(ff) && ff[QH(k)].Key == old(featsOf(host)[k].Key) && sameslice(ff[QH(k)].Props, old(featsOf(host)[k].Props)) &&
@@ -748,6 +763,7 @@ package gts
 //@   ensures wiring_injective: (forall a in 0..len(featsOf(host)): forall b in a+1..len(featsOf(host)): QH(a) != QH(b)) &&
 //@      (forall a in 0..len(featsOf(guest)): forall b in a+1..len(featsOf(guest)): QG(a) != QG(b)) &&
 //@      (forall a in 0..len(featsOf(host)): forall b in 0..len(featsOf(guest)): QH(a) != QG(b))
+//@   ensures info: infoOf(out) == expandedInfo(old(infoOf(host)), index, len(bytesOf(guest)))
 //@   assigns nothing
 //@   loop 1: ghost_update QH(k) := ite(k == idx1 - 1, Insert_P(0), ite(QH(k) >= Insert_P(0), QH(k) + 1, QH(k)))
 //@   loop 1: invariant forall k in 0..idx1: 0 <= QH(k) && QH(k) < len(ff) && ff[QH(k)].Key == old(featsOf(host)[k].Key) && sameslice(ff[QH(k)].Props, old(featsOf(host)[k].Props)) &&
@@ -775,6 +791,7 @@ package gts
 //@   ensures count: len(featsOf(out)) == len(featsOf(seq)) && fresh(featsOf(out))
 //@   ensures keys: forall k in 0..len(featsOf(out)): featsOf(out)[k].Key == old(featsOf(seq)[k].Key) && sameslice(featsOf(out)[k].Props, old(featsOf(seq)[k].Props))
 //@   ensures wiring: forall k in 0..len(featsOf(out)): valOf(featsOf(out)[k].Loc) == expId(valOf(old(featsOf(seq)[k].Loc)), offset, -length)
+//@   ensures info: infoOf(out) == expandedInfo(old(infoOf(seq)), offset, 0 - length)
 //@   assigns nothing
 //@   loop 1: invariant len(ff) == len(featsOf(seq)) && fresh(ff)
 //@   loop 1: invariant forall k in 0..i: ff[k].Key == old(featsOf(seq)[k].Key) && sameslice(ff[k].Props, old(featsOf(seq)[k].Props))
